@@ -752,6 +752,14 @@ def run_methods(ctx: Ctx, geom, jax, jnp):
                         if cfg is not None:
                             check_pool(ctx, geom, jnp, cfg, 3, cap)
     check_pool_rejects(ctx, geom, jnp)
+    # --- thin images: a spatial axis of extent 1 is a spatial axis (to_images, norm)
+    for w in (Config(2, 1, [(1, 0), (0, 0)], [1, 4], [], [2, 3], False, (True, False)),
+              Config(2, 2, [(1, 1)], [4, 1], [2], [3], False, (False, True)),
+              Config(3, 1, [(1, 0), (0, 1)], [3, 1, 2], [], [2, 1], False, (True, True, False)),
+              Config(2, 0, [(1, 0)], [1, 3], [], [], False, (True, True))):
+        check_to_images(ctx, geom, jnp, w)
+        if w.n_lead:
+            check_norm(ctx, geom, jnp, w, cap)
     # --- corpus: the witness of defect D12 (pseudo-scalars stored before scalars, batched selection)
     w = Config(1, 2, [(0, 1), (0, 0)], [2], [5], [3, 1], True, (True,))
     check_component(ctx, geom, jnp, w, 1, True, 4)
